@@ -119,6 +119,13 @@ def scenarios(tier):
     # peer connection lost while shutting down
     S.append(mk("pair-close0-nlose-dev", cfg(A, B, fine=(0, 1), nlose=1, explored=("down", "up", "api", "connect", "stopfin", "nlose") + NET),
                 dev_bound=3 if q else 4, max_depth=250))
+    # a peer link lost at any moment, with eventual turns explored: e.g. the winning connection lost in the turn between its KCM and the
+    # Connector's accept, close() afterwards
+    S.append(mk("pair-close0-nlose-turns-dev", cfg(A, B, fine=(0, 1), nlose=1, explored=("down", "up", "api", "connect", "stopfin", "nlose", "turn") + NET),
+                dev_bound=2 if q else 3, max_depth=300))
+    if not q:
+        S.append(mk("pair-close1-nlose-turns-dev", cfg(B, A, fine=(0, 1), nlose=1, explored=("down", "up", "api", "connect", "stopfin", "nlose", "turn") + NET),
+                    dev_bound=3, max_depth=300))
     # time passes: the Leader's ping monitor fires (ping, then "no traffic" -> reconnect) and close() lands anywhere around it
     for closer in ((0,) if q else (0, 1)):     # client 0 is the Leader (it owns the ping monitor)
         t = [A, B] if closer == 0 else [B, A]
